@@ -32,6 +32,52 @@ fn dispatch(cmd: &str, args: &Args) -> i32 {
         "c13" => c13::run(&args),
         "c14" => c14::run(&args),
         "c19" => c19::run(&args),
+        "fuzzmerge" => {
+            // amend the evidence of a text-level property with the libFuzzer campaign's figures;
+            // an artifact (crashing input) is re-executed and becomes a replay file
+            let prop = args.positional.get(1).expect("fuzzmerge <c12|c13|c14>").to_uppercase();
+            let log = std::fs::read_to_string(args.get("log").unwrap_or("")).unwrap_or_default();
+            let mut stats = serde_json::Map::new();
+            for l in log.lines().rev() {
+                if l.starts_with('#') && (l.contains("DONE") || l.contains("cov:")) {
+                    let toks: Vec<&str> = l.split_whitespace().collect();
+                    stats.insert("executions".into(), serde_json::json!(toks[0].trim_start_matches('#').parse::<u64>().unwrap_or(0)));
+                    for w in toks.windows(2) {
+                        match w[0] {
+                            "cov:" => { stats.insert("coverage_edges".into(), serde_json::json!(w[1].parse::<u64>().unwrap_or(0))); }
+                            "ft:" => { stats.insert("features".into(), serde_json::json!(w[1].parse::<u64>().unwrap_or(0))); }
+                            "corp:" => { stats.insert("corpus".into(), serde_json::json!(w[1])); }
+                            _ => {}
+                        }
+                    }
+                    break;
+                }
+            }
+            let ev_path = verif_core::common::verif_root().join("evidence").join(format!("{}.json", prop));
+            let mut ev: serde_json::Value = std::fs::read_to_string(&ev_path).ok().and_then(|t| serde_json::from_str(&t).ok()).unwrap_or(serde_json::json!({}));
+            let mut code = 0;
+            if let Some(art) = args.get("artifact") {
+                let data = std::fs::read(art).unwrap_or_default();
+                let r = std::panic::catch_unwind(|| match prop.as_str() {
+                    "C12" => c12::fuzz_one(&data),
+                    "C13" => c13::fuzz_one(&data),
+                    _ => c14::fuzz_one(&data),
+                });
+                if let Err(e) = r {
+                    let msg = e.downcast_ref::<String>().cloned().unwrap_or_default();
+                    let doc: serde_json::Value = msg.strip_prefix("VIOLATION-DOC ").and_then(|d| serde_json::from_str(d).ok()).unwrap_or(serde_json::json!({"property": prop, "why": msg, "artifact": art}));
+                    verif_core::common::report_violation(&prop, &doc);
+                    ev["violations"] = serde_json::json!(1);
+                    stats.insert("crashing_input".into(), serde_json::json!(art));
+                    code = 1;
+                }
+            }
+            if let Some(cov) = ev.get_mut("coverage").and_then(|c| c.as_object_mut()) {
+                cov.insert("libfuzzer".into(), serde_json::Value::Object(stats));
+            }
+            let _ = std::fs::write(&ev_path, serde_json::to_string_pretty(&ev).unwrap_or_default());
+            code
+        }
         "replay" => {
             let path = args.positional.get(1).expect("replay <file>");
             let txt = std::fs::read_to_string(path).expect("read replay file");
